@@ -18,6 +18,28 @@ META = {
              "validation completes before the apply whose result is returned, that apply mirrors validate, and that the validators mutate "
              "nothing reachable from their arguments. A statement about code shape on every path, which no finite set of test inputs gives.",
         note=TRUST + "Not decided: ECDSA arithmetic, SHA-256 collision resistance, behaviour on concrete histories (nothing is executed)."),
+    "C02": dict(
+        technique="guard / formula matching over inlined event summaries (linear normal forms); float-arithmetic scan; shared C16 era partition",
+        text="Decides the premises of the conservation induction on every accepting path: reward <= fees(parent's unspent set) + subsidy(height) "
+             "over all reward outputs, fee = all inputs - all outputs, outputs <= inputs, every output and every total in (0, MAX], exactly one "
+             "reward transaction first with one null input, height = parent + 1, integer-only arithmetic, apply removes spent / adds created "
+             "outputs, and the subsidy schedule (C16). Operands, comparator direction and iteration domains are compared as normal forms, so "
+             "an off-by-one, a wrong state or a dropped range check is a reported construct.",
+        note=TRUST + "The induction from these premises to the cumulative bound is the paper argument in DESIGN.md; no sums are evaluated on concrete chains."),
+    "C05": dict(
+        technique="guard / formula matching (normalised integer expressions, folded constants); producer/validator call-identity agreement",
+        text="Decides presence, operands, direction and reach of every header rule on the full-validation path (id < target, time bounds, "
+             "parent known, stated = prescribed target from the block's own ancestors, retarget formula multiply-then-floor-divide by "
+             "1,209,600 capped at 2^256-1 unsigned big-endian, height linkage, evidence recomputed from whole summary / own ancestors / full "
+             "transaction list), and that block assembly calls the same functions with corresponding arguments.",
+        note=TRUST + "Not decided: scrypt/blake2/SHA-256 outputs; the wrap-around loop of select_block_slice beyond its start offset."),
+    "C16": dict(
+        technique="constant folding + abstract evaluation over an era partition derived from the uses of `height`; documentation parsed as data",
+        text="Decides the whole statement for every height 0..2^32-1 without enumerating heights: the subsidy function uses its argument only "
+             "through `height // C` / comparisons (checked), which cuts the axis into ~4,091 cells on which it is constant; each cell is "
+             "evaluated by the checker's own integer evaluator: value = 10 coin // 2^era, non-increasing, zero from era 30 on, "
+             "sum = 2,099,999,986,350,000 = MAX_SASHIMI = the validator's limit = docs/params.md.",
+        note=TRUST + "The evaluator handles assignments, if/return and integer operators only; any other construct in get_block_subsidy gives ANALYSIS-ERROR, not a verdict."),
 }
 
 NOT_YET = "not claimed yet: rule module not implemented in this revision (see DESIGN.md section 5 for the planned rules)"
